@@ -15,6 +15,7 @@ import (
 	"verif/internal/pbt"
 	sb "verif/internal/sandbox"
 	"verif/internal/srcgen"
+	"verif/internal/vgen"
 )
 
 func TestMain(m *testing.M) { pbt.Main(m, "C01") }
@@ -136,6 +137,101 @@ func TestCorpusPrograms(t *testing.T) {
 	defer worker.Close()
 	pbt.Run(t, pbt.Prop[Case]{Name: "corpus_programs", Quick: 2500, Thorough: 60000,
 		Gen: func(t *rapid.T) Case { return Case{corpusSrc(t)} }, Oracle: oracle})
+}
+
+// collectionProgram: churn on the built-in collections (the std containers are written in Go with
+// unchecked arithmetic: capacities, tombstones, index normalisation): fill / drain / refill histories over
+// a tiny universe, in straight-line code and inside loops.
+func collectionProgram(t *rapid.T) string {
+	var b strings.Builder
+	type coll struct{ name, kind string }
+	var cs []coll
+	n := 1 + vgen.Pick(t, 3, "ncoll")
+	for i := 0; i < n; i++ {
+		k := []string{"set", "map", "list", "set"}[vgen.Pick(t, 4, "ckind")]
+		name := fmt.Sprintf("c%d", i)
+		var init []string
+		for j := vgen.Pick(t, 5, "ninit"); j > 0; j-- {
+			init = append(init, fmt.Sprint(rapid.IntRange(0, 6).Draw(t, "iv")))
+		}
+		switch k {
+		case "set":
+			fmt.Fprintf(&b, "var %s: HashSet[Int] = ^[%s]\n", name, strings.Join(init, ", "))
+		case "list":
+			fmt.Fprintf(&b, "var %s: ArrayList[Int] = [%s]\n", name, strings.Join(init, ", "))
+		default:
+			var ps []string
+			for _, v := range init {
+				ps = append(ps, v+" => "+v)
+			}
+			fmt.Fprintf(&b, "var %s: HashMap[Int, Int] = {%s}\n", name, strings.Join(ps, ", "))
+		}
+		cs = append(cs, coll{name, k})
+	}
+	op := func(ind string) {
+		c := cs[vgen.Pick(t, len(cs), "which")]
+		v := rapid.IntRange(0, 6).Draw(t, "v")
+		switch c.kind {
+		case "set":
+			switch vgen.Pick(t, 6, "sop") {
+			case 0, 1:
+				fmt.Fprintf(&b, "%s%s << %d\n", ind, c.name, v)
+			case 2, 3:
+				fmt.Fprintf(&b, "%s%s.remove(%d)\n", ind, c.name, v)
+			case 4:
+				fmt.Fprintf(&b, "%sprintln(%s.contains(%d).inspect)\n", ind, c.name, v)
+			default:
+				fmt.Fprintf(&b, "%sprintln(%s.length)\n", ind, c.name)
+			}
+		case "map":
+			switch vgen.Pick(t, 4, "mop") {
+			case 0, 1:
+				fmt.Fprintf(&b, "%s%s[%d] = %d\n", ind, c.name, v, rapid.IntRange(0, 9).Draw(t, "mv"))
+			case 2:
+				fmt.Fprintf(&b, "%sprintln((%s[%d] ?? (-1)).inspect)\n", ind, c.name, v)
+			default:
+				fmt.Fprintf(&b, "%sprintln(%s.contains_key(%d).inspect, %s.length)\n", ind, c.name, v, c.name)
+			}
+		default:
+			switch vgen.Pick(t, 8, "lop") {
+			case 0, 1:
+				fmt.Fprintf(&b, "%s%s << %d\n", ind, c.name, v)
+			case 2:
+				fmt.Fprintf(&b, "%s%s.pop\n", ind, c.name)
+			case 3:
+				fmt.Fprintf(&b, "%s%s.remove(%d)\n", ind, c.name, v)
+			case 4:
+				fmt.Fprintf(&b, "%sprintln(%s[%d].inspect)\n", ind, c.name, rapid.IntRange(-3, 6).Draw(t, "li"))
+			case 5:
+				fmt.Fprintf(&b, "%s%s[%d] = %d\n", ind, c.name, rapid.IntRange(-3, 6).Draw(t, "si"), v)
+			case 6:
+				fmt.Fprintf(&b, "%s%s.clear\n", ind, c.name)
+			default:
+				fmt.Fprintf(&b, "%sprintln(%s.length, %s.contains(%d).inspect)\n", ind, c.name, c.name, v)
+			}
+		}
+	}
+	for i := rapid.IntRange(4, 30).Draw(t, "nops"); i > 0; i-- {
+		if vgen.Pick(t, 8, "loop") == 0 {
+			// a drain / fill loop over the universe
+			c := cs[vgen.Pick(t, len(cs), "lwhich")]
+			verb := map[string][]string{"set": {"%s.remove(i)", "%s << i"}, "list": {"%s.remove(i)", "%s << i"}, "map": {"%s[i] = i", "%s[i] = i + 1"}}[c.kind][vgen.Pick(t, 2, "drainfill")]
+			fmt.Fprintf(&b, "for i in 0...6\n  do\n    "+verb+"\n  catch e\n    println(\"err\")\n  end\nend\n", c.name)
+			continue
+		}
+		b.WriteString("do\n")
+		op("  ")
+		b.WriteString("catch e\n  println(\"err\")\nend\n")
+	}
+	return b.String()
+}
+
+func TestCollectionPrograms(t *testing.T) {
+	pbt.Rule("collection_programs", "generated programs that churn 1..3 built-in collections (HashSet[Int], HashMap[Int, Int], ArrayList[Int]) over the universe 0..6: insert, remove, lookup, pop, clear, subscript get/set with indices -3..6, drain and fill loops, every operation guarded by do/catch; whatever the history, the interpreter must not crash (errors are fine); non-trivial = executed; distinct by source")
+	worker = sb.New("debug")
+	defer worker.Close()
+	pbt.Run(t, pbt.Prop[Case]{Name: "collection_programs", Quick: 800, Thorough: 30000,
+		Gen: func(t *rapid.T) Case { return Case{collectionProgram(t)} }, Oracle: oracle})
 }
 
 func TestMiniPrograms(t *testing.T) {
